@@ -17,7 +17,7 @@ compiler, the row prints the observed type), and every failing row is re-checked
 """
 import os
 
-T_ALL = ["int", "c07::Counted", "c07::MoveOnly", "int*"]
+T_ALL = ["int", "c07::Counted", "c07::MoveOnly", "int*", "int const*", "c07::Counted*"]
 T_CLASSY = ["int", "c07::Counted", "c07::MoveOnly"]
 
 # the source forms of the quantifier: label, const, ref
@@ -192,7 +192,7 @@ def entries():
     def wrap_obj(W, obj):
         return {"lv": "c07::lv<%s>()", "clv": "c07::clv<%s>()", "xv": "c07::xv<%s>()", "cxv": "c07::cxv<%s>()"}[obj] % W
 
-    for T in ("int", "c07::Counted"):
+    for T in ("int", "c07::Counted", "int*"):
         for clabel, cc, cref in CLOSURES:
             C = ty(T, cc, ref=cref)
             for obj, olabel in OBJS:
@@ -259,7 +259,7 @@ def entries():
         add("xtl::real(double %s)" % label, "real(scalar)", label, "complex", "decltype(xtl::real(%s))" % arg("double", fac), acc)
 
     # ---- F: operator& -----------------------------------------------------------------------
-    for T in ("int", "c07::Counted"):
+    for T in ("int", "c07::Counted", "int*"):
         for clabel, cc, cref in CLOSURES:
             C = ty(T, cc, ref=cref)
             W = "xtl::xclosure_wrapper<%s>" % C
@@ -318,7 +318,7 @@ def known_ill_formed():
     for lab in ("T(prvalue)", "T&&"):
         k["closure(MoveOnly %s)" % lab] = (gcc_pre20, why_copy)
         k["const_closure(MoveOnly %s)" % lab] = (gcc_pre20, why_copy)
-    for T in ("int", "Counted", "int*"):
+    for T in ("int", "Counted", "int*", "int const*", "Counted*"):
         k["const_closure(%s const T&&)" % T] = (always, why_const)
         k["const_closure_pointer(%s const T&&)" % T] = (always, why_const)
     for W in ("xtl::xoptional<int&, bool&>", "xtl::xmasked_value<int&, bool&>", "xtl::xcomplex<double&, double&, false>", "xtl::xclosure_pointer<int&>"):
